@@ -1127,7 +1127,12 @@ class Function(Ring):
         return Function.pushforward(algopy.sign, [self])
 
     def sum(self, axis=None, dtype=None, out=None):
-        return Function.pushforward(algopy.sum, [self, axis, dtype, out])
+        if out is not None:
+            return Function.pushforward(algopy.sum, [self, axis, dtype, out])
+        # axis and dtype are passed by keyword so that the pullback
+        # UTPM.pb_sum(ybar, x, y, axis=..., dtype=...) receives them
+        return Function.pushforward(algopy.sum, [self],
+                                    Fkwargs={'axis':axis, 'dtype':dtype})
 
     def prod(self):
         return Function.pushforward(algopy.prod, [self])
